@@ -36,6 +36,21 @@
 (* share one code object and differ in env = (globals, closure, defaults). *)
 (* The result of a request is Bind(factory, env).                          *)
 (*                                                                         *)
+(* An environment is an *identity*, not a value: its closure is a tuple of *)
+(* cells (mutable locations) that belong to it.  cellval[e] is what the    *)
+(* cells of e currently hold; distinct environments may hold equal values  *)
+(* (two closures made by the same factory call with the same arguments)    *)
+(* and the captured variables can be rebound at any time (Rebind: nonlocal *)
+(* in a sibling closure, assignment in the enclosing scope).  Whatever a   *)
+(* result reads through its closure is cellval[renv]: it has to follow the *)
+(* requesting function's own variables for ever after (Follows).           *)
+(*                                                                         *)
+(* A code object likewise is an identity that is never reused (`used`),    *)
+(* but it lives at an *address* (id()), and the address of a dead code     *)
+(* object is handed to a later one by the allocator (addr, DefineFn with   *)
+(* an address taken from FreeAddrs).  Nothing in the protocol may depend   *)
+(* on addresses: the table is keyed by the (weakly held) object.           *)
+(*                                                                         *)
 (* Deliberate deviations / exclusions (all documented in notes/C10.md):    *)
 (*  - a nested request made from inside transform_ast is for a key that is *)
 (*    not already being converted further down the same thread's stack     *)
@@ -59,7 +74,11 @@ CONSTANTS Threads,      \* thread ids (positive integers or model values)
           MaxFail,      \* failing transforms in a behaviour
           MaxRedefine,  \* environment: redefinitions in a behaviour
           MaxCollect,   \* environment: collections in a behaviour
+          Vals,         \* what closure cells can hold (positive integers)
+          MaxRebind,    \* environment: rebindings of captured variables in a behaviour
+          MaxReuse,     \* environment: new code objects placed at the address of a dead one
           Mutant        \* "none" | "norecheck" | "dropopts" | "keybyenv" | "bindfirst" | "earlyrelease"
+                        \* | "bindequal" | "memoaddr"
 
 VARIABLES fns,          \* live function objects
           used,         \* code ids ever used (never reused: a new code object is a new identity)
@@ -67,11 +86,15 @@ VARIABLES fns,          \* live function objects
           owner, depth, \* the RLock
           stack,        \* [Threads -> Seq(Frame)]  the requests a thread is inside of
           ntr,          \* [Codes \X Opts -> Nat]  successful transforms per (code, options)
-          facEnv,       \* [Keys -> env or 0]  only used by Mutant = "bindfirst"
+          facEnv,       \* [Keys -> env or 0]  only used by Mutant = "bindfirst" / "bindequal"
+          cellval,      \* [Envs -> Vals]  current contents of the closure cells of an environment
+          addr,         \* [Codes -> Nat]  address of a code object (0 = never allocated); dead ones keep theirs
+          memo,         \* <<address, code>>  only used by Mutant = "memoaddr"
           returned,     \* history of completed requests
-          cnt           \* [req: [Threads -> Nat], nest, fail, redef, coll: Nat]
+          cnt           \* [req: [Threads -> Nat], nest, fail, redef, coll, rebind, reuse: Nat]
 
-vars == <<fns, used, cache, owner, depth, stack, ntr, facEnv, returned, cnt>>
+vars == <<fns, used, cache, owner, depth, stack, ntr, facEnv, cellval, addr, memo, returned, cnt>>
+heap == <<cellval, addr>>     \* the part of the Python heap the protocol must not depend on
 
 F(c, e) == [code |-> c, env |-> e]
 Keys == Codes \X Opts
@@ -96,22 +119,34 @@ Goto(t, p)   == stack' = SetTop(t, [Top(t) EXCEPT !.pc = p])
 (* the key the table is indexed with (cache.py CodeObjectCache._get_key,   *)
 (* api.py PyToPy.get_caching_key); RealKey is what the property talks about *)
 RealKey(fr) == <<fr.code, fr.o>>
-Key(fr) == <<IF Mutant = "keybyenv" THEN fr.env ELSE fr.code,
+(* Mutant "memoaddr": a one-entry memo <<address, code>> in front of the table remembers the bucket looked  *)
+(* up last by the *address* of its key; it holds the bucket strongly and nothing invalidates it.            *)
+KeyCode(fr) == IF Mutant = "keybyenv" THEN fr.env
+               ELSE IF Mutant = "memoaddr" /\ memo[1] = addr[fr.code] THEN memo[2] ELSE fr.code
+Key(fr) == <<KeyCode(fr),
              IF Mutant = "dropopts" THEN CHOOSE o \in Opts : \A p \in Opts : o <= p ELSE fr.o>>
 Cached(fr) == cache[Key(fr)] # NoFac
+(* the memo after a lookup for frame fr that leaves the table as `tbl` (a bucket that exists is remembered) *)
+MemoAfter(fr, tbl) == IF Mutant = "memoaddr" /\ (\E o \in Opts : tbl[<<KeyCode(fr), o>>] # NoFac)
+                        THEN <<addr[fr.code], KeyCode(fr)>> ELSE memo
 
 (* pcs at which the code is inside `with self._cache_lock:` *)
 LockedPcs == {"recheck", "lockget", "transform", "transforming", "store", "release", "failrel"}
 
 (* ---- initial state ------------------------------------------------------ *)
-InitWith(F0) ==
+InitBase(F0) ==
   /\ fns = F0 /\ used = {f.code : f \in F0}
+  /\ addr = [c \in Codes |-> IF c \in {f.code : f \in F0} THEN c ELSE 0]
+  /\ memo = <<0, 0>>
   /\ cache = [k \in Keys |-> NoFac]
   /\ owner = NoOwner /\ depth = 0
   /\ stack = [t \in Threads |-> <<>>]
   /\ ntr = [k \in Keys |-> 0] /\ facEnv = [k \in Keys |-> 0]
   /\ returned = {}
-  /\ cnt = [req |-> [t \in Threads |-> 0], nest |-> 0, fail |-> 0, redef |-> 0, coll |-> 0]
+  /\ cnt = [req |-> [t \in Threads |-> 0], nest |-> 0, fail |-> 0, redef |-> 0, coll |-> 0, rebind |-> 0, reuse |-> 0]
+(* all cells hold equal values to begin with: environments are told apart by identity only *)
+MinVal == CHOOSE v \in Vals : \A w \in Vals : v <= w
+InitWith(F0) == InitBase(F0) /\ cellval = [e \in Envs |-> MinVal]
 Init == InitWith(InitFns)
 
 (* ---- a request ---------------------------------------------------------- *)
@@ -119,143 +154,179 @@ Start(t, f, o) ==
   /\ ~Busy(t) /\ cnt.req[t] < MaxReq /\ f \in fns
   /\ stack' = Push(t, NewFrame(f, o))
   /\ cnt' = [cnt EXCEPT !.req[t] = @ + 1]
-  /\ UNCHANGED <<fns, used, cache, owner, depth, ntr, facEnv, returned>>
+  /\ UNCHANGED <<fns, used, cache, owner, depth, ntr, facEnv, heap, memo, returned>>
 
 (* lock-free has(): begin / atomic read / end *)
 HasBegin(t) ==
   /\ At(t, "fast") /\ Goto(t, "fastrd")
-  /\ UNCHANGED <<fns, used, cache, owner, depth, ntr, facEnv, returned, cnt>>
+  /\ UNCHANGED <<fns, used, cache, owner, depth, ntr, facEnv, heap, memo, returned, cnt>>
 FastRead(t) ==
   /\ At(t, "fastrd")
   /\ stack' = SetTop(t, [Top(t) EXCEPT !.seen = Cached(Top(t)), !.pc = "fastrdd"])
-  /\ UNCHANGED <<fns, used, cache, owner, depth, ntr, facEnv, returned, cnt>>
+  /\ memo' = MemoAfter(Top(t), cache)
+  /\ UNCHANGED <<fns, used, cache, owner, depth, ntr, facEnv, heap, returned, cnt>>
 HasEnd(t) ==
   /\ At(t, "fastrdd")
   /\ stack' = SetTop(t, [Top(t) EXCEPT !.seen = FALSE, !.pc = IF Top(t).seen THEN "fastget" ELSE "wait"])
-  /\ UNCHANGED <<fns, used, cache, owner, depth, ntr, facEnv, returned, cnt>>
+  /\ UNCHANGED <<fns, used, cache, owner, depth, ntr, facEnv, heap, memo, returned, cnt>>
 (* fast path: self._cache[fn][subkey] without the lock (a missing entry would be a KeyError: FastGetSafe) *)
 FastGet(t) ==
   /\ At(t, "fastget") /\ Cached(Top(t))
   /\ stack' = SetTop(t, [Top(t) EXCEPT !.fac = cache[Key(Top(t))], !.pc = "inst"])
-  /\ UNCHANGED <<fns, used, cache, owner, depth, ntr, facEnv, returned, cnt>>
+  /\ memo' = MemoAfter(Top(t), cache)
+  /\ UNCHANGED <<fns, used, cache, owner, depth, ntr, facEnv, heap, returned, cnt>>
 
 (* slow path *)
 Acquire(t) ==
   /\ At(t, "wait") /\ owner \in {NoOwner, t}
   /\ owner' = t /\ depth' = depth + 1
   /\ Goto(t, IF Mutant = "norecheck" THEN "transform" ELSE "recheck")
-  /\ UNCHANGED <<fns, used, cache, ntr, facEnv, returned, cnt>>
+  /\ UNCHANGED <<fns, used, cache, ntr, facEnv, heap, memo, returned, cnt>>
 ReCheck(t) ==
   /\ At(t, "recheck") /\ Goto(t, IF Cached(Top(t)) THEN "lockget" ELSE "transform")
-  /\ UNCHANGED <<fns, used, cache, owner, depth, ntr, facEnv, returned, cnt>>
+  /\ memo' = MemoAfter(Top(t), cache)
+  /\ UNCHANGED <<fns, used, cache, owner, depth, ntr, facEnv, heap, returned, cnt>>
 LockGet(t) ==
   /\ At(t, "lockget")
   /\ stack' = SetTop(t, [Top(t) EXCEPT !.fac = cache[Key(Top(t))], !.pc = "release"])
-  /\ UNCHANGED <<fns, used, cache, owner, depth, ntr, facEnv, returned, cnt>>
+  /\ memo' = MemoAfter(Top(t), cache)
+  /\ UNCHANGED <<fns, used, cache, owner, depth, ntr, facEnv, heap, returned, cnt>>
 TransformBegin(t) ==
   /\ At(t, "transform") /\ Goto(t, "transforming")
-  /\ UNCHANGED <<fns, used, cache, owner, depth, ntr, facEnv, returned, cnt>>
+  /\ UNCHANGED <<fns, used, cache, owner, depth, ntr, facEnv, heap, memo, returned, cnt>>
 (* reading / parsing the source fails before transform_ast is entered (e.g. no source available) *)
 ParseFail(t) ==
   /\ At(t, "transform") /\ cnt.fail < MaxFail /\ Goto(t, "failrel")
   /\ cnt' = [cnt EXCEPT !.fail = @ + 1]
-  /\ UNCHANGED <<fns, used, cache, owner, depth, ntr, facEnv, returned>>
+  /\ UNCHANGED <<fns, used, cache, owner, depth, ntr, facEnv, heap, memo, returned>>
 (* transform_ast of the top frame asks the same transpiler to convert another function *)
 Nested(t, f, o) ==
   /\ At(t, "transforming") /\ Len(stack[t]) < MaxDepth /\ cnt.nest < MaxNest /\ f \in fns
   /\ \A i \in 1..Len(stack[t]) : RealKey(stack[t][i]) # <<f.code, o>>
   /\ stack' = Push(t, NewFrame(f, o))
   /\ cnt' = [cnt EXCEPT !.nest = @ + 1]
-  /\ UNCHANGED <<fns, used, cache, owner, depth, ntr, facEnv, returned>>
+  /\ UNCHANGED <<fns, used, cache, owner, depth, ntr, facEnv, heap, memo, returned>>
 TransformFail(t) ==
   /\ At(t, "transforming") /\ cnt.fail < MaxFail /\ Goto(t, "failrel")
   /\ cnt' = [cnt EXCEPT !.fail = @ + 1]
-  /\ UNCHANGED <<fns, used, cache, owner, depth, ntr, facEnv, returned>>
+  /\ UNCHANGED <<fns, used, cache, owner, depth, ntr, facEnv, heap, memo, returned>>
 TransformOk(t) ==
   /\ At(t, "transforming")
   /\ ntr' = [ntr EXCEPT ![RealKey(Top(t))] = @ + 1]
   /\ stack' = SetTop(t, [Top(t) EXCEPT !.fac = <<Top(t).code, Top(t).o, ntr[RealKey(Top(t))] + 1>>,
                                        !.pc = IF Mutant = "earlyrelease" THEN "m_release" ELSE "store"])
-  /\ UNCHANGED <<fns, used, cache, owner, depth, facEnv, returned, cnt>>
+  /\ UNCHANGED <<fns, used, cache, owner, depth, facEnv, heap, memo, returned, cnt>>
 Store(t) ==
   /\ At(t, "store")
   /\ cache' = [cache EXCEPT ![Key(Top(t))] = Top(t).fac]
+  /\ memo' = MemoAfter(Top(t), cache')
   /\ Goto(t, "release")
-  /\ UNCHANGED <<fns, used, owner, depth, ntr, facEnv, returned, cnt>>
+  /\ UNCHANGED <<fns, used, owner, depth, ntr, facEnv, heap, returned, cnt>>
 Unlock == /\ depth' = depth - 1
           /\ owner' = IF depth = 1 THEN NoOwner ELSE owner
 Release(t) ==
   /\ At(t, "release") /\ owner = t /\ Unlock /\ Goto(t, "inst")
-  /\ UNCHANGED <<fns, used, cache, ntr, facEnv, returned, cnt>>
+  /\ UNCHANGED <<fns, used, cache, ntr, facEnv, heap, memo, returned, cnt>>
 (* the exception leaves the with block: nothing stored, lock released ... *)
 ReleaseFail(t) ==
   /\ At(t, "failrel") /\ owner = t /\ Unlock /\ Goto(t, "raise")
-  /\ UNCHANGED <<fns, used, cache, ntr, facEnv, returned, cnt>>
+  /\ UNCHANGED <<fns, used, cache, ntr, facEnv, heap, memo, returned, cnt>>
 (* ... and propagates to the caller (for a nested request: into the outer transform_ast) *)
 Raise(t) ==
   /\ At(t, "raise") /\ stack' = Pop(t)
-  /\ UNCHANGED <<fns, used, cache, owner, depth, ntr, facEnv, returned, cnt>>
+  /\ UNCHANGED <<fns, used, cache, owner, depth, ntr, facEnv, heap, memo, returned, cnt>>
 
-(* factory.instantiate(fn.__globals__, fn.__closure__, fn.__defaults__, ..) *)
+(* factory.instantiate(fn.__globals__, fn.__closure__, fn.__defaults__, ..): the result is bound to the  *)
+(* cells of the requesting function - to the locations, whatever they hold at the moment.               *)
+(* Mutant "bindfirst": the factory keeps the first binding; "bindequal": it reuses its previous binding *)
+(* when the closure *compares equal* (cells compare by contents).                                       *)
 Instantiate(t) ==
   /\ At(t, "inst")
   /\ LET fr == Top(t)
-         e == IF Mutant = "bindfirst" /\ facEnv[FacKey(fr.fac)] # 0 THEN facEnv[FacKey(fr.fac)] ELSE fr.env
+         last == facEnv[FacKey(fr.fac)]
+         e == CASE Mutant = "bindfirst" /\ last # 0 -> last
+                [] Mutant = "bindequal" /\ last # 0 /\ cellval[last] = cellval[fr.env] -> last
+                [] OTHER -> fr.env
      IN /\ stack' = SetTop(t, [fr EXCEPT !.renv = e, !.pc = "ret"])
-        /\ facEnv' = IF Mutant = "bindfirst" /\ facEnv[FacKey(fr.fac)] = 0
-                       THEN [facEnv EXCEPT ![FacKey(fr.fac)] = fr.env] ELSE facEnv
-  /\ UNCHANGED <<fns, used, cache, owner, depth, ntr, returned, cnt>>
+        /\ facEnv' = CASE Mutant = "bindfirst" /\ last = 0 -> [facEnv EXCEPT ![FacKey(fr.fac)] = fr.env]
+                       [] Mutant = "bindequal" -> [facEnv EXCEPT ![FacKey(fr.fac)] = e]
+                       [] OTHER -> facEnv
+  /\ UNCHANGED <<fns, used, cache, owner, depth, ntr, heap, memo, returned, cnt>>
 Return(t) ==
   /\ At(t, "ret")
   /\ LET fr == Top(t) IN
        returned' = returned \cup {[code |-> fr.code, env |-> fr.env, o |-> fr.o, fac |-> fr.fac, renv |-> fr.renv]}
   /\ stack' = Pop(t)
-  /\ UNCHANGED <<fns, used, cache, owner, depth, ntr, facEnv, cnt>>
+  /\ UNCHANGED <<fns, used, cache, owner, depth, ntr, facEnv, heap, memo, cnt>>
 
 (* ---- only reachable when Mutant = "earlyrelease": lock released before the store *)
 MRelease(t) ==
   /\ At(t, "m_release") /\ owner = t /\ Unlock /\ Goto(t, "m_store")
-  /\ UNCHANGED <<fns, used, cache, ntr, facEnv, returned, cnt>>
+  /\ UNCHANGED <<fns, used, cache, ntr, facEnv, heap, memo, returned, cnt>>
 MStore(t) ==
   /\ At(t, "m_store")
   /\ cache' = [cache EXCEPT ![Key(Top(t))] = Top(t).fac]
   /\ Goto(t, "inst")
-  /\ UNCHANGED <<fns, used, owner, depth, ntr, facEnv, returned, cnt>>
+  /\ UNCHANGED <<fns, used, owner, depth, ntr, facEnv, heap, memo, returned, cnt>>
 
 (* ---- environment --------------------------------------------------------- *)
 InFlight(c) == \E t \in Threads : \E i \in 1..Len(stack[t]) : stack[t][i].code = c
-(* a new function object appears (def statement executed, closure created) *)
-DefineFn(f) ==
-  /\ f \notin fns /\ f.code \in Codes /\ f.env \in Envs
-  /\ f.code \in used => \E g \in fns : g.code = f.code      \* a dead code object never comes back
+LiveAddrs == {addr[f.code] : f \in fns}                \* live code objects have pairwise distinct addresses
+FreeAddrs == {addr[c] : c \in used} \ LiveAddrs         \* addresses of dead code objects: the allocator reuses them
+NewAddr   == 1 + CHOOSE a \in {addr[c] : c \in Codes} : \A c \in Codes : addr[c] <= a
+(* a new function object appears (def statement executed, closure created): its code object lives at    *)
+(* address a, its cells hold v.  A code object that is new gets any address no live code object has - a *)
+(* never used one or the one of a dead code object; a function object made from a live code object (or  *)
+(* sharing the cells of a live function object) finds address (contents) as they are.                   *)
+DefineFn(f, a, v) ==
+  /\ f \notin fns /\ f.code \in Codes /\ f.env \in Envs /\ v \in Vals
+  /\ IF f.code \in used
+       THEN /\ \E g \in fns : g.code = f.code               \* a dead code object never comes back
+            /\ a = addr[f.code] /\ addr' = addr
+       ELSE /\ a \in Nat \ {0} /\ a \notin LiveAddrs
+            /\ addr' = [addr EXCEPT ![f.code] = a]
+  /\ IF \E g \in fns : g.env = f.env
+       THEN v = cellval[f.env] /\ cellval' = cellval
+       ELSE cellval' = [cellval EXCEPT ![f.env] = v]
   /\ fns' = fns \cup {f} /\ used' = used \cup {f.code}
-  /\ UNCHANGED <<cache, owner, depth, stack, ntr, facEnv, returned>>
+  /\ UNCHANGED <<cache, owner, depth, stack, ntr, facEnv, memo, returned>>
 FreshCode == CHOOSE c \in Codes \ used : \A d \in Codes \ used : c <= d
-(* same name, same globals/closure/defaults, new code object; the old function object may live on *)
+(* same name, same globals/closure/defaults, new code object; the old function object may live on.      *)
+(* The new code object is allocated at a new address or (<= MaxReuse times) where a dead one used to be *)
 Redefine(f) ==
   /\ cnt.redef < MaxRedefine /\ f \in fns /\ Codes \ used # {}
-  /\ DefineFn(F(FreshCode, f.env))
-  /\ cnt' = [cnt EXCEPT !.redef = @ + 1]
+  /\ \E a \in {NewAddr} \cup (IF cnt.reuse < MaxReuse THEN FreeAddrs ELSE {}) :
+        /\ DefineFn(F(FreshCode, f.env), a, cellval[f.env])
+        /\ cnt' = [cnt EXCEPT !.redef = @ + 1, !.reuse = IF a = NewAddr THEN @ ELSE @ + 1]
+(* a captured variable of environment e is rebound (nonlocal assignment in a sibling closure / in the   *)
+(* enclosing scope): the cells stay the same objects, their contents change                             *)
+Rebind(e, v) ==
+  /\ cnt.rebind < MaxRebind /\ e \in Envs /\ v \in Vals
+  /\ cellval' = [cellval EXCEPT ![e] = v]
+  /\ cnt' = [cnt EXCEPT !.rebind = @ + 1]
+  /\ UNCHANGED <<fns, used, cache, owner, depth, stack, ntr, facEnv, addr, memo, returned>>
 (* the last function object with code c is dropped: the weak key dies and takes its bucket along *)
 Collect(c) ==
   /\ cnt.coll < MaxCollect /\ (\E f \in fns : f.code = c) /\ ~InFlight(c)
   /\ fns' = {f \in fns : f.code # c}
-  /\ cache' = [k \in Keys |-> IF k[1] = c /\ Mutant # "keybyenv" THEN NoFac ELSE cache[k]]
+  /\ cache' = [k \in Keys |-> IF k[1] = c /\ Mutant # "keybyenv" /\ ~(Mutant = "memoaddr" /\ memo[2] = c)
+                              THEN NoFac ELSE cache[k]]
   /\ cnt' = [cnt EXCEPT !.coll = @ + 1]
-  /\ UNCHANGED <<used, owner, depth, stack, ntr, facEnv, returned>>
+  /\ UNCHANGED <<used, owner, depth, stack, ntr, facEnv, heap, memo, returned>>
 
 (* ---- next-state relation -------------------------------------------------- *)
 SomeStart(t)  == \E f \in fns, o \in Opts : Start(t, f, o)
 SomeNested(t) == \E f \in fns, o \in Opts : Nested(t, f, o)
 SomeRedefine  == \E f \in fns : Redefine(f)
 SomeCollect   == \E c \in Codes : Collect(c)
+SomeRebind    == \E f \in fns : \E v \in Vals \ {cellval[f.env]} : Rebind(f.env, v)
 Step(t) == \/ HasBegin(t) \/ FastRead(t) \/ HasEnd(t) \/ FastGet(t)
            \/ Acquire(t) \/ ReCheck(t) \/ LockGet(t)
            \/ TransformBegin(t) \/ ParseFail(t) \/ TransformFail(t) \/ TransformOk(t) \/ SomeNested(t)
            \/ Store(t) \/ Release(t) \/ ReleaseFail(t) \/ Raise(t)
            \/ Instantiate(t) \/ Return(t)
            \/ MRelease(t) \/ MStore(t)
-Env == SomeRedefine \/ SomeCollect
+Env == SomeRedefine \/ SomeCollect \/ SomeRebind
 Next == \/ \E t \in Threads : (Step(t) \/ SomeStart(t))
         \/ Env
 Spec == Init /\ [][Next]_vars
@@ -269,8 +340,11 @@ FairSpec == Spec /\ \A t \in Threads : WF_vars(Step(t))
 (* other thread and of the environment.  Running them to completion before any      *)
 (* other step is taken loses no reachable value of cache / lock / ntr / returned    *)
 (* and no frame state: every invariant below is a conjunction over single frames    *)
-(* and over the monotone history.  RSpec is Spec with that priority; the full Spec  *)
-(* is checked as well (smaller constants in the quick tier, see vf/props/c10.py).   *)
+(* and over the monotone history.  (No thread step reads the heap part cellval /    *)
+(* addr - Instantiate binds to the *locations* - so Rebind and the choice of an     *)
+(* address commute with all of them as well.)                                       *)
+(* RSpec is Spec with that priority; the full Spec is checked as well (smaller      *)
+(* constants, see vf/props/c10.py).                                                 *)
 LocalPcs == {"fast", "fastrdd", "fastget", "recheck", "lockget", "transform", "inst", "ret", "raise"}
 Local(t) == \/ HasBegin(t) \/ HasEnd(t) \/ FastGet(t) \/ ReCheck(t) \/ LockGet(t)
             \/ TransformBegin(t) \/ ParseFail(t) \/ Instantiate(t) \/ Return(t) \/ Raise(t)
@@ -287,6 +361,8 @@ TypeOK ==
   /\ owner \in Threads \cup {NoOwner} /\ depth \in 0..MaxDepth
   /\ \A t \in Threads : Len(stack[t]) <= MaxDepth
   /\ \A k \in Keys : cache[k] = NoFac \/ (FacKey(cache[k]) \in Keys /\ cache[k][3] \in 1..ntr[FacKey(cache[k])])
+  /\ cellval \in [Envs -> Vals] /\ addr \in [Codes -> 0..Cardinality(Codes)]
+  /\ \A c \in Codes : (addr[c] # 0) <=> (c \in used)
 
 (* the source transformation of a (code object, options) pair runs at most once *)
 AtMostOnce == \A k \in Keys : ntr[k] <= 1
@@ -297,6 +373,15 @@ CoherentRec(r) == /\ r.fac # NoFac
                   /\ r.renv = r.env
 Coherent == /\ \A r \in returned : CoherentRec(r)
             /\ \A fr \in AllFrames : fr.pc = "ret" => CoherentRec(fr)
+
+(* whatever a result reads through its closure is what the requesting function reads - at the time of *)
+(* the request and after every later rebinding of the captured variables (cells hold equal values in  *)
+(* the initial state: an implementation that tells environments apart by *contents* passes until then) *)
+FollowsRec(r) == r.renv \in Envs /\ cellval[r.renv] = cellval[r.env]
+Follows == \A r \in returned : FollowsRec(r)
+
+(* live code objects never share an address (dead ones may have passed theirs on) *)
+AddrOK == \A f, g \in fns : f.code # g.code => addr[f.code] # addr[g.code]
 
 (* different option values / different environments never share a result *)
 NoAlias == \A r1, r2 \in returned :
